@@ -96,6 +96,9 @@ func (s *ImmutableState) Proposals(ctx context.Context) ([]*governance.Proposal,
 		}
 		proposals = append(proposals, proposal)
 	}
+	if it.Err() != nil {
+		return nil, api.UnavailableStateError(it.Err())
+	}
 	return proposals, nil
 }
 
@@ -117,6 +120,9 @@ func (s *ImmutableState) ActiveProposals(ctx context.Context) ([]*governance.Pro
 			return nil, err
 		}
 		proposals = append(proposals, proposal)
+	}
+	if it.Err() != nil {
+		return nil, api.UnavailableStateError(it.Err())
 	}
 	return proposals, nil
 }
@@ -166,6 +172,9 @@ func (s *ImmutableState) Votes(ctx context.Context, id uint64) ([]*governance.Vo
 			Vote:  vote,
 		})
 
+	}
+	if it.Err() != nil {
+		return nil, api.UnavailableStateError(it.Err())
 	}
 
 	return voteEntries, nil
@@ -224,6 +233,9 @@ func (s *ImmutableState) PendingUpgrades(ctx context.Context) ([]*upgrade.Descri
 			return nil, api.UnavailableStateError(fmt.Errorf("cometbft/governance: pending upgrade with missing upgrade descriptor"))
 		}
 		pendingUpgrades = append(pendingUpgrades, &proposal.Content.Upgrade.Descriptor)
+	}
+	if it.Err() != nil {
+		return nil, api.UnavailableStateError(it.Err())
 	}
 
 	return pendingUpgrades, nil
@@ -322,6 +334,9 @@ func (s *MutableState) RemovePendingUpgradesForEpoch(ctx context.Context, epoch 
 			break
 		}
 		upgradeProposalIDs = append(upgradeProposalIDs, proposalID)
+	}
+	if it.Err() != nil {
+		return api.UnavailableStateError(it.Err())
 	}
 
 	for _, proposalID := range upgradeProposalIDs {
